@@ -243,4 +243,21 @@ example : unstakeSplit true (50 * 10 ^ 20) 1000 (100 * 10 ^ 20) 1003 400 = some 
 example : unstakeSplit true (50 * 10 ^ 20) 1000 (100 * 10 ^ 20) 1003 600 = some (1003, true, 400, 40 * 10 ^ 20) := by decide
 example : unstakeSplit false 0 1000 (100 * 10 ^ 20) 1003 600 = none := by decide
 
+-- added by the hygiene audit
+-- `apy_spec` / `apy_le_max`: all hypotheses at once (bounded schedule, no saturation), theorem instantiated
+example : (1000 : Int) < 1000 + 604800 + 302400 ∧ (∀ i, g1 i ≤ 100) ∧
+    ((1000 + 604800 + 302400 : Int) - 1000 ≤ I64MAX) := by
+  refine ⟨by decide, ?_, by decide⟩
+  intro i; unfold g1; repeat' split
+  all_goals omega
+-- reward monotonicity: two defined rewards with v ≤ v'
+example : rewardAmount (1000 * 10 ^ 20) 86400 (10 ^ 12) (5 * 10 ^ 22) = some 500000000000000000 ∧
+    rewardAmount (2000 * 10 ^ 20) 86400 (10 ^ 12) (5 * 10 ^ 22) = some 1000000000000000000 := by decide
+-- `claims_disabled_full_only`: with claims disabled a FULL unstake does succeed
+example : unstakeSplit false 0 1000 (100 * 10 ^ 20) 1003 1000 = some (1003, true, 0, 0) := by decide
+-- `unstake_lp_spec`: a successful partial unstake through the whole instruction
+example : (unstakeLp ⟨true, 50 * 10 ^ 20, true, 0, 0, 7, 2000, g1⟩ ⟨1000, 100 * 10 ^ 20, 1000, 3⟩ 1003 400).map
+    (fun o => (o.transfer, o.fullExit, o.pos.map (fun q => (q.amount, q.value)))) =
+    some (400, false, some (600, 60 * 10 ^ 20)) := by decide
+
 end Gmx.C38
